@@ -99,3 +99,192 @@ class Run(Contract):
 
 CONTRACTS = [Run(), InnerRun()]
 VERIFY = [CONTRACTS[0]]
+
+
+# ---------------------------------------------------------------------------------------------------------------------
+# _run itself: the generator body is user code (ASSUMED: keeps the cache bookkeeping, returns anything); what _run does
+# with its result is proved - one module, one name (C09): a module that comes back already owned by a generator call
+# (handed along, by ANY generator including the same one) keeps its name; a fresh one is named exactly once.
+# ---------------------------------------------------------------------------------------------------------------------
+import hdl21 as _h
+
+
+@_h.paramclass
+class StubParams:
+    p = _h.Param(dtype=int, desc="p", default=0)
+
+
+def generator_body(params):          # stands for call.gen.func: never executed, its contract is GenBody
+    raise NotImplementedError
+
+
+GENNAME = z3.Function("generator_name", z3.IntSort(), z3.StringSort())
+UNIQ = z3.Function("unique_name_of", z3.IntSort(), z3.StringSort())
+HASP = z3.Bool("generator_has_params")
+RUN_CLASS_ATTRS = dict(CLASS_ATTRS)
+RUN_CLASS_ATTRS.update({
+    (Generator, "func"): lambda eng, st, obj: generator_body,
+    (Generator, "Params"): lambda eng, st, obj: StubParams,
+    (Generator, "name"): lambda eng, st, obj: SStr(GENNAME(obj.z)),
+})
+
+
+class GenBody(Contract):
+    """ASSUMED contract of an arbitrary generator body: any heap effect that keeps cache_spec (it may call generators),
+    never mutates Generator / GeneratorCall objects; returns a Module (new or existing, named or not, owned by a call
+    or not), or a non-Module, or raises."""
+    key = "contracts.c_generator:generator_body"
+    pure = False
+
+    def scenarios(self, eng):
+        return []
+
+    def apply(self, eng, st, args, kwargs, node=None):
+        from hdl21.signal import Signal
+        st0 = st.fork()
+        outs = []
+        for kind in ("module", "not-a-module", "raises"):
+            n = st.fork()
+            keep = {f: n.heap.arr(f) for f in ("gen", "enable_cache", "$cls")}
+            n.heap.havoc_all()
+            for f, arr in keep.items():
+                n.heap.arrays[f] = arr
+            n.assume(cache_spec(st0, n))
+            if kind == "raises":
+                outs.append((n, Exc(Exception, "from the generator body")))
+                continue
+            m = fresh("body_result", Ref)
+            n.assume(m != NULL)
+            n.assume(n.heap.get("$alive", m))
+            cls = Module if kind == "module" else Signal
+            n.assume(n.heap.get("$cls", m) == n.classid(cls))
+            if kind == "module":
+                n.assume(n.heap.get("_initialized", m))
+                n.assume(n.heap.get("Module._elaborated", m) == NULL)
+            n.ghost["body_heap"] = n.heap.copy()
+            n.ghost["body_result"] = m
+            if eng.feasible(n):
+                outs.append((n, SRef(m, (cls,))))
+        return outs
+
+
+class UniqueNameStub(Contract):
+    key = "hdl21.params:_unique_name"
+    pure = True
+
+    def scenarios(self, eng):
+        return []
+
+    def apply(self, eng, st, args, kwargs, node=None):
+        p = args[0]
+        return [(st, SStr(UNIQ(p.z) if isinstance(p, SRef) else fresh("uniq", z3.StringSort())))]
+
+
+class HasParamsStub(Contract):
+    key = "hdl21.params:hasparams"
+    pure = True
+
+    def scenarios(self, eng):
+        return []
+
+    def apply(self, eng, st, args, kwargs, node=None):
+        return [(st, SBool(HASP))]
+
+
+class InnerRunProved(Contract):
+    key = "hdl21.generator:_run"
+    props = ("C09", "C08")
+    pure = False
+    raises = (Exception, RuntimeError)
+    returns = "ref"
+    result_classes = (Module,)
+
+    def scenarios(self, eng):
+        from hdl21.signal import Signal
+
+        def base(eng, st):
+            eng.field_classes.update(FIELD_CLASSES)
+            call = sym_ref(st, "call", (GeneratorCall,))
+            st.assume(GC != NULL)
+            st.assume(st.heap.get("$alive", GC))
+            gen = st.heap.get("gen", call.z)
+            st.assume(gen != NULL)
+            st.assume(st.heap.get("$alive", gen))
+            st.assume(st.heap.get("$cls", gen) == st.classid(Generator))
+            return call
+
+        def valid(eng, st):
+            call = base(eng, st)
+            eng.write_field(st, call, "params", sym_ref(st, "params", (StubParams,)))
+            return {"call": call}
+
+        def invalid(eng, st):
+            call = base(eng, st)
+            eng.write_field(st, call, "params", sym_ref(st, "params", (Signal,)))
+            return {"call": call}
+        yield Scenario("valid-params", valid)
+        s = Scenario("params-of-the-wrong-class", invalid)
+        s.expect_raise = True
+        yield s
+
+    # ---- posts
+    @staticmethod
+    def _body(st):
+        return st.ghost.get("body_heap"), st.ghost.get("body_result")
+
+    def p_result(self, eng, st0, st, a, res):
+        hb, m = self._body(st)
+        if hb is None or not isinstance(res, SRef):
+            return False
+        return z3.And(res.z == m, st.heap.get("_generated_by", m) == a.call.z)
+
+    def p_keeps_name(self, eng, st0, st, a, res):
+        """one module, one name: a result that already belongs to a generator call keeps the name it has"""
+        hb, m = self._body(st)
+        owned = hb.get("_generated_by", m) != NULL
+        same = z3.And(st.heap.get("name$none", m) == hb.get("name$none", m),
+                      z3.Implies(z3.Not(hb.get("name$none", m)), st.heap.get("name", m) == hb.get("name", m)))
+        return z3.Implies(owned, same)
+
+    def p_named_once(self, eng, st0, st, a, res):
+        """a fresh result is named: <its own name, or the generator's> [ '(' unique-name-of-params ')' ]"""
+        hb, m = self._body(st)
+        fresh_ = hb.get("_generated_by", m) == NULL
+        gen = st0.heap.get("gen", a.call.z)
+        stem = z3.If(hb.get("name$none", m), GENNAME(gen), hb.get("name", m))
+        params = eng.read_field(st0, a.call, "params")[0][1]
+        full = z3.If(HASP, z3.Concat(stem, z3.StringVal("("), UNIQ(params.z), z3.StringVal(")")), stem)
+        return z3.Implies(fresh_, z3.And(z3.Not(st.heap.get("name$none", m)), st.heap.get("name", m) == full))
+
+    def p_frame(self, eng, st0, st, a, res):
+        """beyond the body's own effects, only the result's name and owner change"""
+        hb, m = self._body(st)
+        r = z3.Int("qr")
+        cs = []
+        for f in st.heap.schema:
+            if f.startswith("$") and f != "$alive":
+                continue
+            try:
+                a1, a0 = st.heap.arr(f), hb.arr(f)
+            except Exception:
+                continue
+            if f in ("name", "name$none", "_generated_by"):
+                cs.append(z3.ForAll([r], z3.Implies(r != m, z3.Select(a1, r) == z3.Select(a0, r))))
+            else:
+                cs.append(a1 == a0)
+        return z3.And(cs)
+
+    posts = property(lambda self: [("result-owned-by-call", self.p_result), ("handed-along-keeps-name", self.p_keeps_name),
+                                   ("fresh-named-once", self.p_named_once), ("frame", self.p_frame),
+                                   ("cache", lambda eng, st0, st, a, res: cache_spec(st0, st))])
+    xposts = property(lambda self: [("cache", lambda eng, st0, st, a, E: cache_spec(st0, st))])
+
+
+RUN_CONTRACTS = [GenBody(), UniqueNameStub(), HasParamsStub()]
+VERIFY_RUN = [InnerRunProved()]
+
+
+def run_engine():
+    eng = mk_engine(contracts=RUN_CONTRACTS, class_attrs=RUN_CLASS_ATTRS, field_classes=FIELD_CLASSES,
+                    schema_extra=SCHEMA_EXTRA)
+    return eng
